@@ -513,9 +513,9 @@ pub fn bool_vector_and(push_state: &mut PushState, _instruction_cache: &Instruct
         if let Some(offset) = push_state.int_stack.pop() {
             // Loop through indices of second item
             let scd_size = bv[0].values.len();
-            for i in 0..scd_size {
-                let ofs_idx = (i as i32 + offset) as usize;
-                if ofs_idx > scd_size - 1 {
+            for i in 0..bv[1].values.len() {
+                let ofs_idx = (i as i64 + offset as i64) as usize;
+                if ofs_idx >= scd_size {
                     continue; // Out of bounds
                 }
                 bv[0].values[ofs_idx] &= bv[1].values[i];
@@ -548,9 +548,9 @@ pub fn bool_vector_or(push_state: &mut PushState, _instruction_cache: &Instructi
         if let Some(offset) = push_state.int_stack.pop() {
             // Loop through indices of second item
             let scd_size = bv[0].values.len();
-            for i in 0..scd_size {
-                let ofs_idx = (i as i32 + offset) as usize;
-                if ofs_idx > scd_size - 1 {
+            for i in 0..bv[1].values.len() {
+                let ofs_idx = (i as i64 + offset as i64) as usize;
+                if ofs_idx >= scd_size {
                     continue; // Out of bounds
                 }
                 bv[0].values[ofs_idx] |= bv[1].values[i];
@@ -566,8 +566,8 @@ pub fn bool_vector_not(push_state: &mut PushState, _instruction_cache: &Instruct
     if let Some(mut bvval) = push_state.bool_vector_stack.pop() {
         if let Some(offset) = push_state.int_stack.pop() {
             for i in 0..bvval.values.len() {
-                let ofs_idx = (i as i32 + offset) as usize;
-                if ofs_idx > bvval.values.len() - 1 {
+                let ofs_idx = (i as i64 + offset as i64) as usize;
+                if ofs_idx >= bvval.values.len() {
                     continue; // Out of bounds
                 }
                 bvval.values[ofs_idx] = !bvval.values[ofs_idx];
@@ -820,9 +820,9 @@ pub fn int_vector_add(push_state: &mut PushState, _instruction_cache: &Instructi
         if let Some(offset) = push_state.int_stack.pop() {
             // Loop through indices of second item
             let scd_size = iv[0].values.len();
-            for i in 0..scd_size {
-                let ofs_idx = (i as i32 + offset) as usize;
-                if ofs_idx > scd_size - 1 {
+            for i in 0..iv[1].values.len() {
+                let ofs_idx = (i as i64 + offset as i64) as usize;
+                if ofs_idx >= scd_size {
                     continue; // Out of bounds
                 }
                 iv[0].values[ofs_idx] += iv[1].values[i];
@@ -842,9 +842,9 @@ pub fn int_vector_subtract(push_state: &mut PushState, _instruction_cache: &Inst
         if let Some(offset) = push_state.int_stack.pop() {
             // Loop through indices of second item
             let scd_size = iv[0].values.len();
-            for i in 0..scd_size {
-                let ofs_idx = (i as i32 + offset) as usize;
-                if ofs_idx > scd_size - 1 {
+            for i in 0..iv[1].values.len() {
+                let ofs_idx = (i as i64 + offset as i64) as usize;
+                if ofs_idx >= scd_size {
                     continue; // Out of bounds
                 }
                 iv[0].values[ofs_idx] -= iv[1].values[i];
@@ -864,9 +864,9 @@ pub fn int_vector_multiply(push_state: &mut PushState, _instruction_cache: &Inst
         if let Some(offset) = push_state.int_stack.pop() {
             // Loop through indices of second item
             let scd_size = iv[0].values.len();
-            for i in 0..scd_size {
-                let ofs_idx = (i as i32 + offset) as usize;
-                if ofs_idx > scd_size - 1 {
+            for i in 0..iv[1].values.len() {
+                let ofs_idx = (i as i64 + offset as i64) as usize;
+                if ofs_idx >= scd_size {
                     continue; // Out of bounds
                 }
                 iv[0].values[ofs_idx] *= iv[1].values[i];
@@ -888,9 +888,9 @@ pub fn int_vector_divide(push_state: &mut PushState, _instruction_cache: &Instru
             let mut invalid = false;
             // Loop through indices of second item
             let scd_size = iv[0].values.len();
-            for i in 0..scd_size {
-                let ofs_idx = (i as i32 + offset) as usize;
-                if ofs_idx > scd_size - 1 {
+            for i in 0..iv[1].values.len() {
+                let ofs_idx = (i as i64 + offset as i64) as usize;
+                if ofs_idx >= scd_size {
                     continue; // Out of bounds
                 }
                 if iv[1].values[i] == 0 {
@@ -1211,9 +1211,9 @@ pub fn float_vector_add(push_state: &mut PushState, _instruction_cache: &Instruc
         if let Some(offset) = push_state.int_stack.pop() {
             // Loop through indices of second item
             let scd_size = iv[0].values.len();
-            for i in 0..scd_size {
-                let ofs_idx = (i as i32 + offset) as usize;
-                if ofs_idx > scd_size - 1 {
+            for i in 0..iv[1].values.len() {
+                let ofs_idx = (i as i64 + offset as i64) as usize;
+                if ofs_idx >= scd_size {
                     continue; // Out of bounds
                 }
                 iv[0].values[ofs_idx] += iv[1].values[i];
@@ -1233,9 +1233,9 @@ pub fn float_vector_subtract(push_state: &mut PushState, _instruction_cache: &In
         if let Some(offset) = push_state.int_stack.pop() {
             // Loop through indices of second item
             let scd_size = iv[0].values.len();
-            for i in 0..scd_size {
-                let ofs_idx = (i as i32 + offset) as usize;
-                if ofs_idx > scd_size - 1 {
+            for i in 0..iv[1].values.len() {
+                let ofs_idx = (i as i64 + offset as i64) as usize;
+                if ofs_idx >= scd_size {
                     continue; // Out of bounds
                 }
                 iv[0].values[ofs_idx] -= iv[1].values[i];
@@ -1255,9 +1255,9 @@ pub fn float_vector_multiply(push_state: &mut PushState, _instruction_cache: &In
         if let Some(offset) = push_state.int_stack.pop() {
             // Loop through indices of second item
             let scd_size = iv[0].values.len();
-            for i in 0..scd_size {
-                let ofs_idx = (i as i32 + offset) as usize;
-                if ofs_idx > scd_size - 1 {
+            for i in 0..iv[1].values.len() {
+                let ofs_idx = (i as i64 + offset as i64) as usize;
+                if ofs_idx >= scd_size {
                     continue; // Out of bounds
                 }
                 iv[0].values[ofs_idx] *= iv[1].values[i];
@@ -1279,9 +1279,9 @@ pub fn float_vector_divide(push_state: &mut PushState, _instruction_cache: &Inst
             let mut invalid = false;
             // Loop through indices of second item
             let scd_size = iv[0].values.len();
-            for i in 0..scd_size {
-                let ofs_idx = (i as i32 + offset) as usize;
-                if ofs_idx > scd_size - 1 {
+            for i in 0..iv[1].values.len() {
+                let ofs_idx = (i as i64 + offset as i64) as usize;
+                if ofs_idx >= scd_size {
                     continue; // Out of bounds
                 }
                 if iv[1].values[i] == 0.0 {
